@@ -6,9 +6,9 @@ Case classes (case-id prefix):
   c18curve      one factory curve per case: dump, domain, evaluation (orders 0..2 everywhere, 3..6 sampled)
                 inside sections, exactly at every knot, in both extrapolation regions, inverse values,
                 then shift / positive scale and evaluation again
-  c18getcp      getXControlPoints / getYControlPoints                     (known finding D10)
-  c18negscale   scale with a negative x factor, then evaluation            (known finding D11)
-  c18gaussfold  Gaussian active-torque-angle curve, parameters that fold it (known finding D17)
+  c18getcp      getXControlPoints / getYControlPoints                     (fixed defect D10)
+  c18negscale   scale with a negative x factor, then evaluation            (fixed defect D11)
+  c18gaussfold  Gaussian active-torque-angle curve, parameters that used to fold it (fixed defect D17)
   c18tm         built-in torque muscles: torque / activation / partial derivatives
 """
 import os, random, collections
@@ -259,7 +259,17 @@ def gen(seed, tier):
         if j % 2 == 0:
             out.append("geo new gauss2 %s %s" % (fr(sd * g.q(12, 16)), fr(sd)))          # angle > 11.2 sd
         else:
-            out.append("geo new gauss5 %s %s 0 %s 1/2" % (fr(g.q(-1, 1)), fr(sd), fr(g.q(F(65, 100), F(9, 10)))))
+            # shoulders above e^(-1/2): inside the concave part of the Gaussian a corner section exists only
+            # if the shoulder slope is at least about the Gaussian's own slope there; with a smaller slope the
+            # factory may refuse (newopt), with that slope it has to deliver a valid curve
+            import math
+            y0 = g.q(F(65, 100), F(9, 10))
+            s0 = math.sqrt(-2 * math.log(float(y0))) / float(sd) * float(y0)
+            s0 = F(int(s0 * 1000 * float(g.q(1, F(13, 10)))) + 1, 1000)
+            if j % 4 == 1:
+                out.append("geo new gauss5 %s %s %s %s 1/2" % (fr(g.q(-1, 1)), fr(sd), fr(s0), fr(y0)))
+            else:
+                out.append("geo newopt gauss5 %s %s 0 %s 1/2" % (fr(g.q(-1, 1)), fr(sd), fr(y0)))
         g.stats["gaussian-fold"] += 1
         distinct += 1
     import props_c18_tm
